@@ -220,7 +220,7 @@ def r14_7(ck, F):
             "(subs.retain) under is_none() of the list's own request channel (Option<UnboundedReceiver<Req<T>>>), not "
             "of the distributor channel",
             "list dropped without done() while a distributor clone is alive: caught-up subscribers and mirrors hang "
-            "instead of receiving Closed", floor=2)
+            "instead of receiving Closed", floor=1)
     b = F.main_body("robs::list::ObservableList::task")
     rets = [(bb, t) for bb, t in b.calls("std::vec::Vec::retain")]
     if not rets:
